@@ -1701,6 +1701,35 @@ val run0 : (z -> bool) -> cfg -> st0 -> act0 list -> st0 res
 
 val output : st0 -> item1 list res
 
+val uNLIMITED : z
+
+type cm_arg =
+| CMNone
+| CMNum of z
+| CMBad
+
+type xact =
+| XA of act0
+| XChangeMulti of cm_arg
+
+val limit_after : z -> cm_arg -> z
+
+val sp_with_multi : sparams -> z -> sparams
+
+val xsstep : (z -> bool) -> (sparams * sstate) -> xact -> sparams * sstate
+
+val xsrun : (z -> bool) -> (sparams * sstate) -> xact list -> sparams * sstate
+
+val mAXMULTI : z
+
+val with_multi : cfg -> z -> cfg
+
+val change_multi : cfg -> st0 -> cm_arg -> cfg * st0
+
+val xdo : (z -> bool) -> (cfg * st0) -> xact -> (cfg * st0) res
+
+val xrun : (z -> bool) -> (cfg * st0) -> xact list -> (cfg * st0) res
+
 val as_item0 : val0 -> item1
 
 val vitem : item1 -> val0
@@ -1728,6 +1757,8 @@ val as_sstate : val0 -> sstate
 val vsstate : sstate -> val0
 
 val as_optz0 : val0 -> z option
+
+val as_xact : val0 -> xact
 
 val dispatch_edit : z -> val0 -> val0 option
 
@@ -4273,6 +4304,115 @@ val scan1 :
   ('a2 -> 'a2 -> bool) -> ('a1 -> 'a2 option) -> z -> bool -> bool -> bool ->
   bool -> 'a1 list list -> ('a1, 'a2) merger0 res
 
+val lower_ascii : z -> z
+
+val split_on2 : z -> str -> str list
+
+type tbname =
+| TLength
+| TChunk
+| TBegin
+| TEnd
+| TPathname
+| TIndex0
+
+val tbname_eqb : tbname -> tbname -> bool
+
+val w_index : str
+
+val w_chunk : str
+
+val w_length : str
+
+val w_begin : str
+
+val w_end : str
+
+val w_pathname : str
+
+val w_default : str
+
+val w_path : str
+
+val w_history : str
+
+val name_of : str -> tbname option
+
+val crit_of_name : tbname -> crit list
+
+val all_some : 'a1 option list -> 'a1 list option
+
+val nodupb : tbname list -> bool
+
+val index_only_last : tbname list -> bool
+
+val names_ok : tbname list -> bool
+
+val tiebreak_criteria : str -> crit list option
+
+type scheme0 =
+| SDefault
+| SPath
+| SHistory
+
+val scheme_of0 : str -> scheme0 option
+
+val scheme_criteria0 : scheme0 -> crit list
+
+type copt0 =
+| OScheme of str
+| OTiebreak of str
+| OSort of bool
+| OTac of bool
+
+type config = { cf_scheme : scheme0; cf_criteria : crit list; cf_sort : 
+                bool; cf_tac : bool }
+
+val last_some : ('a1 -> 'a2 option) -> 'a1 list -> 'a2 option
+
+val opt_scheme : copt0 -> scheme0 option
+
+val opt_criteria : copt0 -> crit list option
+
+val opt_sort : copt0 -> bool option
+
+val opt_tac : copt0 -> bool option
+
+val opt_valid : copt0 -> bool
+
+val configured : bool -> copt0 list -> config option
+
+val crit_code : crit -> z
+
+val parse_scheme : str -> (str * z list) res
+
+type tbflags = { has_index : bool; has_chunk : bool; has_length : bool;
+                 has_begin : bool; has_end : bool; has_pathname : bool }
+
+val no_flags0 : tbflags
+
+val flag_of : tbname -> tbflags -> bool
+
+val set_flag : tbname -> tbflags -> tbflags
+
+val check : tbname -> tbflags -> tbflags res
+
+val tb_case : str -> (tbname * z list) res
+
+val tb_loop0 : str list -> tbflags -> z list -> z list res
+
+val parse_tiebreak0 : str -> z list res
+
+type opts = { o_scheme : str; o_criteria : z list; o_sort0 : z; o_tac0 : bool }
+
+val default_options : opts
+
+val apply_opt : copt0 -> opts -> opts res
+
+val parse_all0 : copt0 list -> opts -> opts res
+
+val parse_options : bool -> copt0 list -> opts res
+
 val sp_of : z list -> z -> bool
 
 val crit_of : z -> crit
@@ -4324,6 +4464,16 @@ val d_scan : val0 -> val0
 val as_ritem : val0 -> ritem
 
 val d_order : val0 -> val0
+
+val as_copt : val0 -> copt0
+
+val scheme_code : scheme0 -> z
+
+val d_configured : val0 -> val0
+
+val d_parse_options : val0 -> val0
+
+val d_tiebreak : val0 -> val0
 
 val dispatch_rank : z -> val0 -> val0 option
 
@@ -5250,7 +5400,7 @@ val search_texts : dspec -> fexpr0 list -> str list -> str list
 
 type tpart0 =
 | TLit0 of str
-| TIndex0
+| TIndex1
 | TFields0 of fexpr0 list
 
 val render_part : dspec -> str list -> z -> tpart0 -> str
@@ -5415,7 +5565,7 @@ type entry =
 | SymFile of str
 | SymDir of str * entry list
 
-val name_of : entry -> str
+val name_of0 : entry -> str
 
 type wopts = { o_file : bool; o_dir : bool; o_follow : bool; o_hidden : bool }
 
@@ -5525,13 +5675,52 @@ val content : gworld -> nat -> gent list
 
 val on_path : nat -> nat list -> bool
 
-val all_some : 'a1 option list -> 'a1 list option
+val all_some0 : 'a1 option list -> 'a1 list option
 
 val unfold_ent :
   (nat list -> gent list -> entry list option) -> gworld -> nat list -> gent
   -> entry option
 
 val unfold : nat -> gworld -> nat list -> gent list -> entry list option
+
+type uentry =
+| UFile of str
+| UDir of str * bool * uentry list
+| USymFile of str
+| USymDir of str * bool * uentry list
+
+val uname : uentry -> str
+
+val visible : uentry -> entry
+
+type uroot = (str * bool) * uentry list
+
+val visible_root : uroot -> str * entry list
+
+val listing_unreadable : wopts -> str list -> uroot list -> str list
+
+val ukind : uentry -> kind0
+
+type callback_e = str -> kind0 -> bool -> (str list * action1) res
+
+val walk_fn_e :
+  wopts -> ((str list * str list) * str list) -> str -> kind0 -> bool -> (str
+  list * action1) res
+
+type wres = str list * bool
+
+val report_error : callback_e -> str -> kind0 -> str list -> wres res
+
+val fwe_entry : callback_e -> bool -> str -> uentry -> wres res
+
+val fwe_read : callback_e -> bool -> str -> uentry list -> wres res
+
+val fwe_walk : callback_e -> bool -> str -> bool -> uentry list -> wres res
+
+val walk_roots_e :
+  callback_e -> bool -> bool -> uroot list -> (str list * bool) res
+
+val read_files_e : wopts -> str list -> uroot list -> (str list * bool) res
 
 val as_entry : val0 -> entry
 
@@ -5556,6 +5745,18 @@ val as_gworld : val0 -> gworld
 val of_entry : entry -> val0
 
 val d_unfold : val0 -> val0
+
+val as_uentry : val0 -> uentry
+
+val as_uroot : val0 -> uroot
+
+val as_uroots : val0 -> uroot list
+
+val d_model_e : val0 -> val0
+
+val d_spec_e : val0 -> val0
+
+val d_visible : val0 -> val0
 
 val dispatch_walk : z -> val0 -> val0 option
 
